@@ -76,6 +76,38 @@ theorem reads_only_field (buf extra : Bytes) (pos len : Nat) (h1 : 1 ≤ len) (h
 theorem unsigned_range (buf : Bytes) (pos len : Nat) : specU buf pos len < 2^len :=
   specU_lt buf pos len
 
+/-- Range of the signed result: the two's complement of `n+1` bits lies in `[-2^n, 2^n)`, for every
+    buffer and position (so the minimum value `-2^n` of each width is reached and nothing below). -/
+theorem signed_range (buf : Bytes) (pos n : Nat) :
+    -(2^n : Int) ≤ specI buf pos (n+1) ∧ specI buf pos (n+1) < 2^n := by
+  unfold specI
+  have hh := specU_head buf pos n
+  have hr := specU_lt buf (pos+1) n
+  have hb := bitAt_lt buf pos
+  have hp : (2:Int)^(n+1) = 2 * 2^n := by rw [Int.pow_succ]; omega
+  have hc : ((2^n : Nat) : Int) = (2:Int)^n := by push_cast; rfl
+  rw [hp]
+  generalize specU buf (pos+1) n = r at *
+  generalize specU buf pos (n+1) = u at *
+  generalize (2:Int)^n = PI at *
+  generalize (2:Nat)^n = P at *
+  have hb' : bitAt buf pos = 0 ∨ bitAt buf pos = 1 := by omega
+  rcases hb' with h0 | h1
+  · rw [h0] at hh ⊢; simp only [Nat.zero_mul, Nat.zero_add] at hh; subst hh
+    simp only [Nat.zero_ne_one, ↓reduceIte]; omega
+  · rw [h1] at hh ⊢; simp only [Nat.one_mul] at hh; subst hh
+    simp only [↓reduceIte]; push_cast; omega
+
+/-- … and therefore of what the model of `GetBitsAsInt64` returns for every field of 2…64 bits
+    inside the buffer: a value of the width's two's-complement range, never outside it. -/
+theorem signed_result_range (buf : Bytes) (pos n : Nat) (h1 : 1 ≤ n) (h64 : n + 1 ≤ 64)
+    (hin : Inside buf pos (n+1)) :
+    ∃ v, getBitsI? buf pos (n+1) = some v ∧ -(2^n : Int) ≤ v ∧ v < 2^n :=
+  ⟨specI buf pos (n+1), signed_exact buf pos (n+1) (by omega) h64 hin, signed_range buf pos n⟩
+
+/-- Non-vacuity (a test): the minimum of a 10-bit field is reached. -/
+example : specI [0x80, 0x00] 0 10 = -(2^9 : Int) := by decide
+
 /-! Non-vacuity: concrete, non-trivial instances (these are tests, labelled as such). -/
 example : Inside [0xd3, 0x00, 0x8a, 0x43] 14 10 := by unfold Inside; decide
 example : getBitsU? [0xd3, 0x00, 0x8a, 0x43] 14 10 = some 138 := by decide
